@@ -1,5 +1,7 @@
 import CuqiVerif.Proofs.C02_density
 import Mathlib.Probability.Distributions.Gaussian.Real
+import Mathlib.MeasureTheory.Integral.Lebesgue.Countable
+import Mathlib.MeasureTheory.Measure.Count
 
 /-!
 # C02 — `mh_reversible_density`: Metropolis–Hastings on general measurable state spaces
@@ -16,7 +18,30 @@ tests — see `mhAlphaD_log_form`):
 * `mhAlphaD π q x y = min 1 (π y q(y,x) / (π x q(x,y)))` (`= 0` where the denominator vanishes),
 * `accKernel lam q a x = (q(x,·) a(x,·)) • lam + (1 − ∫ q a dlam) • δ_x` as a Mathlib `Kernel X X`
   (`Kernel.withDensity` of `Kernel.const lam` plus `Kernel.withDensity` of `Kernel.id`),
-* `mhKernelD lam π q = accKernel lam q (mhAlphaD π q)`, `targetMeasure lam π = π • lam`.
+* `mhKernelD lam π q = accKernel lam q (mhAlphaD π q)`, `targetMeasure lam π = π • lam`,
+* `mhKernelR ρ π q`: the same with a reference KERNEL `ρ` (proposal `q(x,·) • ρ(x,·)`), which covers
+  one-block / one-coordinate updates (`blockRef`, `coordRef`, `cwKernel`) and proposals that are
+  reversible w.r.t. the prior (pCN); `mhKernelD lam = mhKernelR (const lam)` by `rfl`.
+
+The full-strength goal (`mhKernelD_isMarkov`, `mh_reversible_density`, `mh_invariant_density`,
+compositions `mh_comp_invariant_density` / `sweep_invariant`, mixtures `mixKernel_*`) is proved
+without extra hypotheses: only measurability of `π` and of `(x,y) ↦ q(x,y)`, `π ≥ 0`, `q ≥ 0`, and
+`∫ q(x,·) = 1` for the Markov / invariance parts.  Instances for the proposal mechanisms of CUQIpy:
+`rwmh_gaussian_invariant` (MH), `cwmh_gaussian_sweep_invariant` (CWMH), `mala_invariant_density`
+(MALA), `pcn_1d_invariant` + `mh_reversible_of_reversible_proposal` (pCN).
+
+NOT proved here (statements kept visible, none of them is a `sorry`):
+
+* pCN in dimension > 1 / on a Hilbert space:
+  `(Q_pcn a s C).IsReversible (N(0, C))` for `Q_pcn a s C x = N(a • x, s² C)`, `a² + s² = 1`.
+  It is the hypothesis `hQ` of `mh_reversible_of_reversible_proposal`; proved for `ℝ`, `C = 1`
+  (`pcnProposal1_isReversible`), the pointwise algebra for any `C` is `pcn_ratio`.
+* the kernel as the law of the executable step under its random inputs:
+  `mhKernelD volume (exp ∘ ℓ) (rwDens s²) x A = (N(0,I) ⊗ U(0,1]) {(ξ,u) | step x ξ u ∈ A}` with
+  `step x ξ u = if log u ≤ min 0 (ℓ(x+sξ) − ℓ x) then x+sξ else x`.  Proved are the two factors:
+  `rw_proposal_law_1d` (law of `x + sξ` has density `gaussianPDFReal x s²`, per coordinate) and
+  `accept_event_measure_eq_mhAlphaD` (the `u`-event has measure `α(x,y)`); the frame theorems of
+  `Props/C02.lean` say the state is `y` on acceptance and `x` otherwise.
 -/
 
 namespace CuqiVerif.C02
@@ -255,6 +280,359 @@ theorem cwmh_sweep_invariant_density (js : List (Fin (n + 1))) (π : (Fin (n + 1
   have := cwKernel_isMarkov j π (q j) hπ (hq j) (hq0 j) (hq1 j)
   exact (cwmh_reversible_density j π (q j) hπ (hq j) hπ0 (hq0 j)).invariant
 
+/-- Random-scan variant (coordinate `j` chosen with probability `w j`): reversible, and invariant
+    when the weights sum to one (`mixKernel_invariant`). -/
+theorem cwmh_random_scan_reversible (w : Fin (n + 1) → ℝ≥0∞) (π : (Fin (n + 1) → ℝ) → ℝ)
+    (q : Fin (n + 1) → (Fin (n + 1) → ℝ) → (Fin (n + 1) → ℝ) → ℝ) (hπ : Measurable π)
+    (hπ0 : ∀ x, 0 ≤ π x) (hq : ∀ j, Measurable (Function.uncurry (q j))) (hq0 : ∀ j x y, 0 ≤ q j x y) :
+    (mixKernel w (fun j => cwKernel j π (q j))).IsReversible (targetMeasure volume π) :=
+  mixKernel_isReversible _ w _ (fun j => cwmh_reversible_density j π (q j) hπ (hq j) hπ0 (hq0 j))
+
 end cwmh
+
+/-! ## the acceptance function is the one the code evaluates in log form -/
+
+section logform
+variable {X : Type*}
+
+/-- For a symmetric positive proposal density the MH probability is `min(1, π(y)/π(x))`
+    (MH, CWMH, and — after `pcn_ratio` — pCN use the target / likelihood difference only). -/
+theorem mhAlphaD_of_symm (π : X → ℝ) (q : X → X → ℝ) (x y : X) (hs : q x y = q y x) (hp : 0 < q x y) :
+    mhAlphaD π q x y = min 1 (π y / π x) := by
+  unfold mhAlphaD
+  rw [← hs, mul_div_mul_right _ _ hp.ne']
+
+/-- **Log form.** With `π = exp ∘ ℓ` and positive proposal densities the MH probability is
+    `min(1, exp(ℓ(y) − ℓ(x) + log q(y,x) − log q(x,y)))` — the quantity whose logarithm the
+    executable model compares with `log u` (`mhStep_accept_iff`: `Δℓ`; `malaStep_accept_iff`:
+    `Δℓ + logq(x|x*) − logq(x*|x)`). -/
+theorem mhAlphaD_log_form (ℓ : X → ℝ) (q : X → X → ℝ) (x y : X) (hxy : 0 < q x y) (hyx : 0 < q y x) :
+    mhAlphaD (fun z => Real.exp (ℓ z)) q x y
+      = min 1 (Real.exp (ℓ y - ℓ x + (Real.log (q y x) - Real.log (q x y)))) := by
+  unfold mhAlphaD
+  congr 1
+  rw [Real.exp_add, Real.exp_sub, Real.exp_sub, Real.exp_log hxy, Real.exp_log hyx]
+  field_simp
+
+/-- **The event the code tests has the probability the kernel uses.** For `u` uniform on `(0,1]`,
+    `P(log u ≤ min(0, Δℓ + log q(y,x) − log q(x,y))) = α(x,y)`, the acceptance function of
+    `mhKernelD` / `mhKernelR` / `cwKernel` for the target `exp ∘ ℓ` (`accept_measure` +
+    `mhAlphaD_log_form`); the event is exactly `accepts_fin_iff`'s. -/
+theorem accept_event_measure_eq_mhAlphaD (ℓ : X → ℝ) (q : X → X → ℝ) (x y : X) (hxy : 0 < q x y)
+    (hyx : 0 < q y x) :
+    volume {u : ℝ | u ∈ Ioc (0:ℝ) 1 ∧
+        Real.log u ≤ min 0 (ℓ y - ℓ x + (Real.log (q y x) - Real.log (q x y)))}
+      = ENNReal.ofReal (mhAlphaD (fun z => Real.exp (ℓ z)) q x y) := by
+  rw [accept_measure, mhAlphaD_log_form ℓ q x y hxy hyx]
+
+example : mhAlphaD (fun z : ℝ => Real.exp (-(z ^ 2))) (fun _ _ => 1) 0 1 = min 1 (Real.exp (-1)) := by
+  rw [mhAlphaD_log_form (fun z => -(z ^ 2)) (fun _ _ => 1) 0 1 one_pos one_pos]; norm_num
+
+end logform
+
+/-! ## Gaussian random-walk proposals: the kernels CUQIpy's `MH` and `CWMH` implement -/
+
+section gaussian
+open scoped NNReal
+variable {ι : Type*} [Fintype ι]
+
+/-- **Random-walk Metropolis on `ℝ^ι`** (`MH`: `x* = x + s·ξ`, `ξ ~ N(0, I)`, `v = s²`, any
+    dimension, any scale `s ≠ 0`, any measurable unnormalised target density `π ≥ 0`): the kernel
+    is Markov, reversible w.r.t. `π • volume`, and leaves it invariant; since the proposal is
+    symmetric the acceptance probability is `min(1, π(y)/π(x))`, i.e. `log u ≤ min(0, Δ log π)`. -/
+theorem rwmh_gaussian_invariant (π : (ι → ℝ) → ℝ) (hπ : Measurable π) (hπ0 : ∀ x, 0 ≤ π x)
+    {v : ℝ≥0} (hv : v ≠ 0) :
+    IsMarkovKernel (mhKernelD volume π (rwDens v)) ∧
+    (mhKernelD volume π (rwDens v)).IsReversible (targetMeasure volume π) ∧
+    (mhKernelD volume π (rwDens v)).Invariant (targetMeasure volume π) ∧
+    ∀ x y, mhAlphaD π (rwDens v) x y = min 1 (π y / π x) :=
+  ⟨mhKernelD_isMarkov volume π _ hπ (measurable_rwDens v) (rwDens_nonneg v) (lintegral_rwDens hv),
+   mh_reversible_density volume π _ hπ (measurable_rwDens v) hπ0 (rwDens_nonneg v),
+   mh_invariant_density volume π _ hπ (measurable_rwDens v) hπ0 (rwDens_nonneg v) (lintegral_rwDens hv),
+   fun x y => mhAlphaD_of_symm π _ x y (rwDens_symm v x y) (rwDens_pos hv x y)⟩
+
+/-- Random-walk Metropolis before and after tuning (two different scales) composed: invariant. -/
+theorem rwmh_gaussian_retuned_invariant (π : (ι → ℝ) → ℝ) (hπ : Measurable π) (hπ0 : ∀ x, 0 ≤ π x)
+    {v₁ v₂ : ℝ≥0} (h₁ : v₁ ≠ 0) (h₂ : v₂ ≠ 0) :
+    ((mhKernelD volume π (rwDens v₁)) ∘ₖ (mhKernelD volume π (rwDens v₂))).Invariant
+      (targetMeasure volume π) :=
+  mh_comp_invariant_density volume π _ _ hπ hπ0 (measurable_rwDens v₁) (measurable_rwDens v₂)
+    (rwDens_nonneg v₁) (rwDens_nonneg v₂) (lintegral_rwDens h₁) (lintegral_rwDens h₂)
+
+/-- **MALA on `ℝ^ι`** (`x* = x + (ε/2)·g(x) + √ε·ξ`, any dimension, any `ε ≠ 0`, ANY measurable
+    drift field `g` — correctness does not depend on `g` being the exact gradient, only on the same
+    `g` being used in both directions, which is what `malaStep` does with the cached gradient):
+    Markov, reversible w.r.t. `π • volume`, invariant; and for `π = exp ∘ ℓ` the acceptance
+    probability is `min(1, exp(Δℓ + log q(x|x*) − log q(x*|x)))` with `log q` the Gaussian
+    log-density `gaussLogPdf` that `mala_logq` identifies with the code's `_log_proposal`. -/
+theorem mala_invariant_density (π : (ι → ℝ) → ℝ) (hπ : Measurable π) (hπ0 : ∀ x, 0 ≤ π x)
+    (g : (ι → ℝ) → (ι → ℝ)) (hg : Measurable g) {ε : ℝ≥0} (hε : ε ≠ 0) :
+    let m : (ι → ℝ) → (ι → ℝ) := fun x => x + ((ε : ℝ) / 2) • g x
+    IsMarkovKernel (mhKernelD volume π (driftDens ε m)) ∧
+    (mhKernelD volume π (driftDens ε m)).IsReversible (targetMeasure volume π) ∧
+    (mhKernelD volume π (driftDens ε m)).Invariant (targetMeasure volume π) := by
+  intro m
+  have hm : Measurable m := by
+    show Measurable (fun x : ι → ℝ => x + ((ε : ℝ) / 2) • g x)
+    fun_prop
+  exact ⟨mhKernelD_isMarkov volume π _ hπ (measurable_driftDens ε hm) (driftDens_nonneg ε m)
+      (lintegral_driftDens hε m),
+    mh_reversible_density volume π _ hπ (measurable_driftDens ε hm) hπ0 (driftDens_nonneg ε m),
+    mh_invariant_density volume π _ hπ (measurable_driftDens ε hm) hπ0 (driftDens_nonneg ε m)
+      (lintegral_driftDens hε m)⟩
+
+/-- the MALA acceptance probability in the log form the code evaluates -/
+theorem mala_alpha_log_form (ℓ : (ι → ℝ) → ℝ) (m : (ι → ℝ) → (ι → ℝ)) {ε : ℝ≥0} (hε : ε ≠ 0)
+    (x y : ι → ℝ) :
+    mhAlphaD (fun z => Real.exp (ℓ z)) (driftDens ε m) x y
+      = min 1 (Real.exp (ℓ y - ℓ x
+          + (gaussLogPdf ε (Fintype.card ι) (∑ i, (x i - m y i) ^ 2)
+             - gaussLogPdf ε (Fintype.card ι) (∑ i, (y i - m x i) ^ 2)))) := by
+  rw [mhAlphaD_log_form ℓ _ x y (driftDens_pos hε m x y) (driftDens_pos hε m y x),
+    log_driftDens hε m y x, log_driftDens hε m x y]
+
+variable {n : ℕ}
+
+/-- **The CWMH sweep with Gaussian random-walk proposals and per-component scales**
+    (`x*_j = x_j + s_j ξ_j`, `v j = s_j²`): every single-coordinate kernel is Markov and reversible
+    w.r.t. `π • volume`, accepts with `min(1, π(x[j:=t])/π(x))`, and the sweep over any list of
+    coordinates — in particular `0, …, n` as in the code — leaves `π • volume` invariant. -/
+theorem cwmh_gaussian_sweep_invariant (π : (Fin (n + 1) → ℝ) → ℝ) (hπ : Measurable π)
+    (hπ0 : ∀ x, 0 ≤ π x) (v : Fin (n + 1) → ℝ≥0) (hv : ∀ j, v j ≠ 0) (js : List (Fin (n + 1))) :
+    (∀ j, IsMarkovKernel (cwKernel j π (rwCoordDens j (v j)))) ∧
+    (∀ j, (cwKernel j π (rwCoordDens j (v j))).IsReversible (targetMeasure volume π)) ∧
+    (∀ j x y, mhAlphaD π (rwCoordDens j (v j)) x y = min 1 (π y / π x)) ∧
+    (sweepKernel (js.map (fun j => cwKernel j π (rwCoordDens j (v j))))).Invariant
+      (targetMeasure volume π) :=
+  ⟨fun j => cwKernel_isMarkov j π _ hπ (measurable_rwCoordDens j (v j)) (rwCoordDens_nonneg j (v j))
+      (lintegral_rwCoordDens j (hv j)),
+   fun j => cwmh_reversible_density j π _ hπ (measurable_rwCoordDens j (v j)) hπ0
+      (rwCoordDens_nonneg j (v j)),
+   fun j x y => mhAlphaD_of_symm π _ x y (rwCoordDens_symm j (v j) x y) (rwCoordDens_pos j (hv j) x y),
+   cwmh_sweep_invariant_density js π (fun j => rwCoordDens j (v j)) hπ hπ0
+      (fun j => measurable_rwCoordDens j (v j)) (fun j => rwCoordDens_nonneg j (v j))
+      (fun j => lintegral_rwCoordDens j (hv j))⟩
+
+/-- **The proposal mechanism has the proposal density (one coordinate).** The law of
+    `x + s·ξ`, `ξ ~ N(0,1)` — what `mhPropose` / `cwPropose` compute per coordinate — is the measure
+    with Lebesgue density `gaussianPDFReal x s²`, the factor of `rwDens` / `rwCoordDens`. -/
+theorem rw_proposal_law_1d (x s : ℝ) (hs : s ≠ 0) :
+    (gaussianReal 0 1).map (fun ξ => x + s * ξ)
+      = volume.withDensity (fun y => ENNReal.ofReal (gaussianPDFReal x (.mk (s ^ 2) (sq_nonneg s)) y)) := by
+  have hv : (NNReal.mk (s ^ 2) (sq_nonneg s)) ≠ 0 := by
+    intro h
+    have h' : s ^ 2 = 0 := congrArg NNReal.toReal h
+    exact hs ((pow_eq_zero_iff (two_ne_zero)).1 h')
+  have h1 : (fun ξ : ℝ => x + s * ξ) = (fun t => x + t) ∘ (fun ξ => s * ξ) := rfl
+  rw [h1, ← Measure.map_map (by fun_prop) (by fun_prop), gaussianReal_map_const_mul,
+    gaussianReal_map_const_add, mul_zero, zero_add, mul_one, gaussianReal_of_var_ne_zero _ hv]
+  rfl
+
+example : (gaussianReal 0 1).map (fun ξ => 3 + 2 * ξ)
+    = volume.withDensity (fun y => ENNReal.ofReal (gaussianPDFReal 3 (.mk (2 ^ 2) (sq_nonneg 2)) y)) :=
+  rw_proposal_law_1d 3 2 (by norm_num)
+
+/-! ### non-vacuity: a concrete non-Gaussian target, concrete scales -/
+
+/-- quartic (non-Gaussian, unnormalised) target on `ℝ^(n+1)`, as in the tie's scenarios -/
+noncomputable def quarticTarget (n : ℕ) (x : Fin (n + 1) → ℝ) : ℝ := Real.exp (-∑ i, (x i) ^ 4)
+
+lemma measurable_quarticTarget (n : ℕ) : Measurable (quarticTarget n) := by
+  unfold quarticTarget; fun_prop
+
+lemma quarticTarget_nonneg (n : ℕ) (x : Fin (n + 1) → ℝ) : 0 ≤ quarticTarget n x := (Real.exp_pos _).le
+
+example : (mhKernelD volume (quarticTarget 2) (rwDens (1/4 : ℝ≥0))).Invariant
+    (targetMeasure volume (quarticTarget 2)) :=
+  (rwmh_gaussian_invariant (quarticTarget 2) (measurable_quarticTarget 2) (quarticTarget_nonneg 2)
+    (by norm_num)).2.2.1
+
+example : (sweepKernel ((List.finRange 3).map
+      (fun j => cwKernel j (quarticTarget 2) (rwCoordDens j (![1/4, 1, 4] j))))).Invariant
+    (targetMeasure volume (quarticTarget 2)) :=
+  (cwmh_gaussian_sweep_invariant (quarticTarget 2) (measurable_quarticTarget 2) (quarticTarget_nonneg 2)
+    ![1/4, 1, 4] (by intro j; fin_cases j <;> norm_num) (List.finRange 3)).2.2.2
+
+/-- MALA for the quartic target with its exact gradient, `ε = 1/4` -/
+example : (mhKernelD volume (quarticTarget 1)
+      (driftDens (1/4 : ℝ≥0) (fun x => x + (((1/4 : ℝ≥0) : ℝ) / 2) • (fun i => -4 * (x i) ^ 3)))).Invariant
+    (targetMeasure volume (quarticTarget 1)) :=
+  (mala_invariant_density (quarticTarget 1) (measurable_quarticTarget 1) (quarticTarget_nonneg 1)
+    (fun x i => -4 * (x i) ^ 3) (measurable_pi_lambda _ (fun i => by fun_prop)) (by norm_num)).2.2
+
+/-- a target with a zero region (support restriction, as in the tie's scenarios) is covered:
+    only measurability and `π ≥ 0` are required -/
+example : (mhKernelD volume (fun x : Fin 1 → ℝ => if 0 ≤ x 0 then Real.exp (-(x 0)) else 0)
+      (rwDens (1 : ℝ≥0))).IsReversible
+    (targetMeasure volume (fun x : Fin 1 → ℝ => if 0 ≤ x 0 then Real.exp (-(x 0)) else 0)) :=
+  mh_reversible_density volume _ _
+    (Measurable.ite (measurableSet_le measurable_const (measurable_pi_apply 0)) (by fun_prop) measurable_const)
+    (measurable_rwDens 1) (fun x => by positivity) (rwDens_nonneg 1)
+
+end gaussian
+
+/-! ## the finite-state theorems of `Props/C02.lean` are the counting-measure instance -/
+
+section finite
+variable {α : Type*} [Fintype α] [DecidableEq α] [MeasurableSpace α] [MeasurableSingletonClass α]
+
+omit [Fintype α] [DecidableEq α] [MeasurableSpace α] [MeasurableSingletonClass α] in
+/-- the acceptance function of the general kernel is the finite-state `mhAlpha` -/
+theorem mhAlphaD_eq_mhAlpha (π : α → ℝ) (q : α → α → ℝ) : mhAlphaD π q = mhAlpha π q := rfl
+
+/-- **Generalisation check.** On a finite state space with the counting measure as reference the
+    general kernel `mhKernelD` IS the finite-state kernel `mhKernel` (rows of `mhMatrix`) whose
+    reversibility and invariance `mhKernel_isReversible` / `mhKernel_invariant` state; the target
+    `π • count` is `weightMeasure π`. -/
+theorem mhKernelD_count_eq_mhKernel (π : α → ℝ) (q : α → α → ℝ) (hπ : ∀ x, 0 ≤ π x)
+    (hq : ∀ x y, 0 ≤ q x y) (hrow : ∀ x, ∑ y, q x y = 1) :
+    mhKernelD Measure.count π q = mhKernel π q := by
+  ext x : 1
+  apply Measure.ext_of_singleton
+  intro y
+  have hR : mhKernel π q x {y} = ENNReal.ofReal (mhMatrix π q x y) := weightMeasure_singleton _ y
+  rw [hR, mhKernelD_apply Measure.count π q (Measurable.of_discrete) (Measurable.of_discrete) x
+    (measurableSet_singleton y), lintegral_singleton, Measure.count_singleton, mul_one, lintegral_count,
+    tsum_fintype]
+  have hm0 : ∀ z, 0 ≤ q x z * mhAlphaD π q x z := fun z => mul_nonneg (hq x z) (mhAlphaD_nonneg hπ hq x z)
+  have hS1 : ∑ z, q x z * mhAlphaD π q x z ≤ 1 := by
+    rw [← hrow x]
+    exact Finset.sum_le_sum (fun z _ => mul_le_of_le_one_right (hq x z) (mhAlphaD_le_one π q x z))
+  rw [← ENNReal.ofReal_sum_of_nonneg (fun z _ => hm0 z), ← ENNReal.ofReal_one,
+    ← ENNReal.ofReal_sub _ (Finset.sum_nonneg (fun z _ => hm0 z))]
+  by_cases hxy : x = y
+  · subst hxy
+    simp only [mem_singleton_iff, indicator_of_mem, Pi.one_apply, mul_one]
+    rw [← ENNReal.ofReal_add (hm0 x) (by linarith)]
+    congr 1
+    simp only [mhMatrix, if_true]
+    rw [← Finset.add_sum_erase Finset.univ _ (Finset.mem_univ x)]
+    simp only [mhAlphaD_eq_mhAlpha]
+    ring
+  · have hyx : x ∉ ({y} : Set α) := by simpa using hxy
+    simp only [indicator_of_notMem hyx, mul_zero, add_zero, mhMatrix, hxy, if_false]
+    rfl
+
+omit [DecidableEq α] in
+/-- the target measure `π • count` is the weight measure of the finite-state theorems -/
+theorem targetMeasure_count_eq_weightMeasure (π : α → ℝ) :
+    targetMeasure Measure.count π = weightMeasure π := by
+  apply Measure.ext_of_singleton
+  intro y
+  classical
+  rw [weightMeasure_singleton]
+  unfold targetMeasure
+  rw [withDensity_apply _ (measurableSet_singleton y), lintegral_singleton, Measure.count_singleton, mul_one]
+
+example : mhKernelD Measure.count (![1, 2, 3] : Fin 3 → ℝ) (fun _ _ => 1 / 3)
+    = mhKernel (![1, 2, 3] : Fin 3 → ℝ) (fun _ _ => 1 / 3) :=
+  mhKernelD_count_eq_mhKernel _ _ (by intro x; fin_cases x <;> norm_num) (by intro x y; norm_num)
+    (by intro x; simp)
+
+end finite
+
+/-! ## pCN-type kernels: proposal reversible w.r.t. the prior, likelihood-only acceptance -/
+
+section pcnType
+variable {X : Type*} [MeasurableSpace X]
+
+/-- **Why the likelihood-only ratio of pCN is right (measure-theoretic form of `pcn_ratio`).**
+    Let `μ0` be a finite measure (the Gaussian prior), `Q` ANY Markov proposal kernel that is
+    reversible w.r.t. `μ0` (for pCN: `Q(x,·) = N(√(1−s²)·x, s²C)`, `μ0 = N(0,C)`; `pcn_ratio` is the
+    pointwise identity behind that), and `L ≥ 0` a measurable likelihood.  Then "propose from `Q`,
+    accept with `min(1, L(y)/L(x))`" is a Markov kernel, reversible w.r.t. the posterior `L • μ0`,
+    and leaves it invariant — no Lebesgue density of prior or proposal is needed (function-space
+    setting).  With prior mean ≠ 0 the hypothesis `hQ` fails (`pcn_not_mh_of_mean_ne_zero`). -/
+theorem mh_reversible_of_reversible_proposal (μ0 : Measure X) [IsFiniteMeasure μ0]
+    (Q : ProbabilityTheory.Kernel X X) [IsMarkovKernel Q] (hQ : Q.IsReversible μ0)
+    (L : X → ℝ) (hL : Measurable L) (hL0 : ∀ x, 0 ≤ L x) :
+    IsMarkovKernel (mhKernelR Q L (fun _ _ => 1)) ∧
+    (mhKernelR Q L (fun _ _ => 1)).IsReversible (targetMeasure μ0 L) ∧
+    (mhKernelR Q L (fun _ _ => 1)).Invariant (targetMeasure μ0 L) ∧
+    ∀ x y, mhAlphaD L (fun _ _ => 1) x y = min 1 (L y / L x) := by
+  have h1 : ∀ x, ∫⁻ _ : X, ENNReal.ofReal ((fun _ _ => (1:ℝ)) x x) ∂Q x = 1 := by intro x; simp
+  exact ⟨mhKernelR_isMarkov Q L _ hL measurable_const (fun _ _ => zero_le_one) h1,
+    mhKernelR_isReversible (symmRef_of_isReversible hQ) L _ hL measurable_const hL0 (fun _ _ => zero_le_one),
+    mhKernelR_invariant (symmRef_of_isReversible hQ) L _ hL measurable_const hL0 (fun _ _ => zero_le_one) h1,
+    fun x y => mhAlphaD_of_symm L _ x y rfl one_pos⟩
+
+/-- non-vacuity: the independence sampler that proposes from a probability prior -/
+example (μ0 : Measure X) [IsProbabilityMeasure μ0] :
+    (ProbabilityTheory.Kernel.const X μ0).IsReversible μ0 := by
+  intro A B _ _
+  simp [mul_comm]
+
+example : (mhKernelR (ProbabilityTheory.Kernel.const ℝ (gaussianReal 0 1)) (fun x => Real.exp (-(x - 1) ^ 2))
+      (fun _ _ => 1)).Invariant (targetMeasure (gaussianReal 0 1) (fun x => Real.exp (-(x - 1) ^ 2))) :=
+  (mh_reversible_of_reversible_proposal (gaussianReal 0 1) _ (by intro A B _ _; simp [mul_comm])
+    (fun x => Real.exp (-(x - 1) ^ 2)) (by fun_prop) (fun x => (Real.exp_pos _).le)).2.2.1
+
+open scoped NNReal in
+/-- **pCN in one dimension, completely.** Prior `N(0,1)`, proposal `x* = a·x + s·ξ`, `ξ ~ N(0,1)`
+    with `a² + s² = 1` (`v = s²`; the code's `a = √(1−s²)`), any measurable likelihood `L ≥ 0`:
+    the proposal kernel is `N(a x, s²)`, it is reversible w.r.t. the prior (the measure form of
+    `pcn_ratio`), and the kernel "accept with `min(1, L(y)/L(x))`" — the likelihood-only ratio of
+    `pcnStep_accept_iff` — is Markov, reversible w.r.t. the posterior `L • N(0,1)` and leaves it
+    invariant. -/
+theorem pcn_1d_invariant (a : ℝ) {v : ℝ≥0} (hv : v ≠ 0) (h : a ^ 2 + (v : ℝ) = 1)
+    (L : ℝ → ℝ) (hL : Measurable L) (hL0 : ∀ x, 0 ≤ L x) :
+    (∀ x, pcnProposal1 a v x = gaussianReal (a * x) v) ∧
+    (pcnProposal1 a v).IsReversible (gaussianReal 0 1) ∧
+    IsMarkovKernel (mhKernelR (pcnProposal1 a v) L (fun _ _ => 1)) ∧
+    (mhKernelR (pcnProposal1 a v) L (fun _ _ => 1)).IsReversible (targetMeasure (gaussianReal 0 1) L) ∧
+    (mhKernelR (pcnProposal1 a v) L (fun _ _ => 1)).Invariant (targetMeasure (gaussianReal 0 1) L) ∧
+    ∀ x y, mhAlphaD L (fun _ _ => 1) x y = min 1 (L y / L x) := by
+  have : Fact (v ≠ 0) := ⟨hv⟩
+  have hQ := pcnProposal1_isReversible a hv h
+  have := mh_reversible_of_reversible_proposal (gaussianReal 0 1) (pcnProposal1 a v) hQ L hL hL0
+  exact ⟨pcnProposal1_apply a hv, hQ, this⟩
+
+/-- `a = 3/5`, `s = 4/5`, likelihood of one observation `y = 1` with unit noise -/
+example : (mhKernelR (pcnProposal1 (3/5) ((4/5) ^ 2 : NNReal)) (fun x => Real.exp (-(x - 1) ^ 2 / 2))
+      (fun _ _ => 1)).Invariant
+    (targetMeasure (gaussianReal 0 1) (fun x => Real.exp (-(x - 1) ^ 2 / 2))) :=
+  (pcn_1d_invariant (3/5) (v := (4/5) ^ 2) (by norm_num) (by push_cast; norm_num) _ (by fun_prop)
+    (fun x => (Real.exp_pos _).le)).2.2.2.2.1
+
+end pcnType
+
+/-! ## further non-vacuity examples -/
+
+section examples
+open scoped NNReal
+
+/-- Barker's acceptance `π(y)q(y,x) / (π(x)q(x,y) + π(y)q(y,x))` balances the flow -/
+example : (accKernel (volume : Measure (Fin 2 → ℝ)) (rwDens (1:ℝ≥0))
+      (barkerAlpha (quarticTarget 1) (rwDens (1:ℝ≥0)))).IsReversible
+    (targetMeasure volume (quarticTarget 1)) :=
+  accKernel_isReversible volume _ _ _ (measurable_quarticTarget 1) (measurable_rwDens 1)
+    (measurable_barkerAlpha (measurable_quarticTarget 1) (measurable_rwDens 1)) (quarticTarget_nonneg 1)
+    (barkerAlpha_balance _ _)
+
+/-- random-scan mixture of two random-walk kernels with different scales -/
+example : (mixKernel (![1/2, 1/2] : Fin 2 → ENNReal)
+      (fun i => mhKernelD volume (quarticTarget 1) (rwDens (![1/4, 4] i : ℝ≥0)))).Invariant
+    (targetMeasure volume (quarticTarget 1)) := by
+  apply mixKernel_invariant
+  · simp [ENNReal.inv_two_add_inv_two]
+  · intro i
+    exact (rwmh_gaussian_invariant (quarticTarget 1) (measurable_quarticTarget 1) (quarticTarget_nonneg 1)
+      (by fin_cases i <;> norm_num)).2.2.1
+
+/-- one-block update on `ℝ × ℝ`: first coordinate proposed from `N(y, 1)`, second kept -/
+example : (mhKernelR (blockRef (Z := ℝ) (volume : Measure ℝ))
+      (fun p => Real.exp (-(p.1 ^ 4 + p.1 ^ 2 * p.2 ^ 2 + p.2 ^ 2)))
+      (fun p p' => gaussianPDFReal p.1 1 p'.1)).IsReversible
+    (targetMeasure ((volume : Measure ℝ).prod (volume : Measure ℝ))
+      (fun p => Real.exp (-(p.1 ^ 4 + p.1 ^ 2 * p.2 ^ 2 + p.2 ^ 2)))) := by
+  apply mh_block_reversible_density
+  · fun_prop
+  · show Measurable (fun z : (ℝ × ℝ) × (ℝ × ℝ) => gaussianPDFReal z.1.1 1 z.2.1)
+    unfold gaussianPDFReal
+    fun_prop
+  · intro x; exact (Real.exp_pos _).le
+  · intro x y; exact gaussianPDFReal_nonneg _ _ _
+
+end examples
 
 end CuqiVerif.C02
